@@ -38,6 +38,7 @@ func serialBus(id string, seed int64, writer bool) *trace.Scenario {
 	rng := rand.New(rand.NewSource(seed))
 	m := machine.New(intROM, machine.Options{NoCPU: true, NoSerial: !writer})
 	sc := &trace.Scenario{ID: id, Reset: []any{trace.B2I(writer), "bus", seed}}
+	lastSB := 0x53
 	for i := 0; i < 300; i++ {
 		a := []int{0xff01, 0xff01, 0xff02, 0xff00, 0xff03, 0xff0f, 0xff10 + rng.Intn(0x30), 0xff80 + rng.Intn(0x7f), 0xc000 + rng.Intn(0x100), 0xff40 + rng.Intn(12)}[rng.Intn(10)]
 		if a == 0xff46 && rng.Intn(3) > 0 {
@@ -47,6 +48,12 @@ func serialBus(id string, seed int64, writer bool) *trace.Scenario {
 			sc.Ev = append(sc.Ev, []any{"r", a, int(m.M.Read(uint16(a)))})
 		} else {
 			v := rng.Intn(256)
+			if a == 0xff01 && rng.Intn(3) == 0 {
+				v = lastSB // the same byte again (with or without an SC write in between): delivered again
+			}
+			if a == 0xff01 {
+				lastSB = v
+			}
 			if a == 0xff02 && rng.Intn(2) == 0 {
 				v = []int{0x81, 0x80, 0x01, 0x83, 0xff, 0x00}[rng.Intn(6)] // transfer-start patterns
 			}
@@ -73,8 +80,14 @@ func serialProg(id string, seed int64, writer bool) *trace.Scenario {
 	var code []int
 	for len(code) < 600 {
 		switch rng.Intn(9) {
-		case 0, 1, 2:
+		case 0, 1:
 			code = append(code, 0x3e, rng.Intn(256), 0xe0, 0x01)
+		case 2:
+			// a run of the same byte: LD A,n; LDH (01),A two to four times
+			code = append(code, 0x3e, rng.Intn(256))
+			for k := 2 + rng.Intn(3); k > 0; k-- {
+				code = append(code, 0xe0, 0x01)
+			}
 		case 3:
 			code = append(code, 0x3e, []int{0x81, 0x80, 0x01, rng.Intn(256)}[rng.Intn(4)], 0xe0, 0x02)
 		case 4:
